@@ -202,7 +202,20 @@ def c_leaf_ok(f, kind, leaf):
 def analyse(job):
     pid, label, ast, tr, all_classes = job
     st = Stats(f"{pid}:{label}")
+    primed = label.endswith(" [after _gen_c_decl({}) / _gen_kernels({})]")
     cls = tg.build(ast)
+    if primed:
+        # the order a context may well use: the cffi declarations (generated with an EMPTY configuration) and the
+        # kernel descriptions are produced BEFORE the accessor source of these fresh classes; the source must not
+        # depend on what earlier generator calls left behind
+        try:
+            for c in sort_classes([cls]):
+                if hasattr(c, "_gen_c_decl"):
+                    c._gen_c_decl({})
+                if hasattr(c, "_gen_kernels"):
+                    c._gen_kernels({})
+        except Exception as ex:  # noqa
+            st.notes.append(f"priming failed: {type(ex).__name__}: {str(ex)[:100]}")
     try:
         units = {"cpu_serial": cgen.Unit([cls], "cpu_serial")}
         if pid == "C15":
@@ -476,11 +489,19 @@ sys.exit(run(AST, {c_name!r}, {pdesc!r}, {kind!r}, dim={dim}))
 
 REPLAY_C15 = '''#!/usr/bin/env python
 """replay: the specialised accessor source of two targets differs in address arithmetic / qualifiers (exit 1 = differs)"""
-import sys, re
+import os, sys, re
+if not sys.executable.startswith("/verif/.venv"):
+    os.execv("/verif/.venv/bin/python", ["/verif/.venv/bin/python"] + sys.argv)
 sys.path.insert(0, "/verif")
 from vx import typegen as tg, cgen
+from xobjects.context import sort_classes
 AST = {ast}
 cls = tg.build(AST)
+if {prime}:
+    # the cffi declarations / kernel descriptions (generated with an empty configuration) first, as a context may do
+    for c in sort_classes([cls]):
+        if hasattr(c, "_gen_c_decl"): c._gen_c_decl({{}})
+        if hasattr(c, "_gen_kernels"): c._gen_kernels({{}})
 name = {c_name!r}
 def body(tgt):
     u = cgen.Unit([cls], tgt)
@@ -502,6 +523,10 @@ for tgt in ("cpu_openmp", "opencl", "cuda"):
         for m in re.finditer(r"\\(([^()]*?)\\*\\)", b):
             if "__global" not in m.group(1):
                 print("VIOLATED: opencl pointer without __global:", m.group(0)); bad = 1
+        # ... and every pointer DECLARATION (local variables, return type)
+        for m in re.finditer(r"(?m)^[ \\t]*((?:[A-Za-z_]\\w*[ \\t]+)*[A-Za-z_]\\w*)[ \\t]*\\*[ \\t]*[A-Za-z_]\\w*[ \\t]*(=|\\()", b):
+            if "__global" not in m.group(1) and m.group(1).split()[0] not in ("return",):
+                print("VIOLATED: opencl pointer declaration without __global:", m.group(0)); bad = 1
     ok, err = cgen.host_syntax_check(u.spec_source, tgt)
     if not ok:
         print("VIOLATED: host compiler rejects", tgt, err[:200]); bad = 1
@@ -519,6 +544,9 @@ def main(pid):
     rep.crash_reproduces = True
     cat = tg.catalogue(tr, seed())
     jobs = [(pid, label, ast, tr, tr == "thorough") for label, ast in cat]
+    if pid == "C15":
+        # every type a second time, as fresh classes, with the generator's other entry points called first
+        jobs += [(pid, label + " [after _gen_c_decl({}) / _gen_kernels({})]", tg.renamed(ast, "p"), tr, False) for label, ast in (cat if tr == "quick" else cat[:120])]
     results = run_parallel(analyse, jobs)
     programs = 0
     agg = {}
@@ -546,7 +574,7 @@ def main(pid):
             if mv:
                 dim = max(2, min(max(mv) + 1, 6))
             if pid == "C15":
-                text = REPLAY_C15.format(ast=repr(job[2]), c_name=info.get("c_name", cex["function"]))
+                text = REPLAY_C15.format(ast=repr(job[2]), c_name=info.get("c_name", cex["function"]), prime=job[1].endswith("_gen_kernels({})]"))
             else:
                 text = REPLAY.format(ast=repr(info["ast"]), c_name=info["c_name"], pdesc=info["pdesc"], kind=info["kind"], dim=dim)
             rep.candidate(sig, desc, text)
